@@ -95,7 +95,9 @@ GENERATION_NUMBER_ZERO = 0
 GENERATION_NUMBER_V1_MAX = 0x3FFFFFFF
 
 # Parent encoding constants
-GRAPH_PARENT_MISSING = 0x70000000
+# GRAPH_PARENT_NONE: there is no parent in this position.
+# GRAPH_PARENT_MISSING: there is a parent, but it is not in the file.
+GRAPH_PARENT_MISSING = 0x7FFFFFFF
 GRAPH_PARENT_NONE = 0x70000000
 GRAPH_EXTRA_EDGES_NEEDED = 0x80000000
 GRAPH_LAST_EDGE = 0x80000000
@@ -108,7 +110,7 @@ class CommitGraphEntry:
         self,
         commit_id: ObjectID,
         tree_id: ObjectID,
-        parents: list[ObjectID],
+        parents: list[ObjectID] | None,
         generation: int,
         commit_time: int,
     ) -> None:
@@ -117,7 +119,8 @@ class CommitGraphEntry:
         Args:
           commit_id: The commit object ID
           tree_id: The tree object ID
-          parents: List of parent commit IDs
+          parents: List of parent commit IDs, or None if the commit graph
+            does not know all of them
           generation: Generation number
           commit_time: Commit timestamp
         """
@@ -289,26 +292,39 @@ class CommitGraph:
                 (gen_and_time[0] & 0x3) << 32
             )  # 34 bits total
 
-            # Parse parents
-            parents = []
-            if parent1_pos < GRAPH_PARENT_MISSING:
+            # Parse parents. A parent that is marked as missing from the
+            # file makes the whole list unknown (None): a shortened list
+            # would be taken for the commit's real parents.
+            parents: list[RawObjectID] | None = []
+            if parent1_pos < GRAPH_PARENT_NONE:
                 if parent1_pos >= len(oids):
                     raise ValueError(f"Invalid parent1 position: {parent1_pos}")
                 parents.append(oids[parent1_pos])
+            elif parent1_pos == GRAPH_PARENT_MISSING:
+                parents = None
 
-            if parent2_pos < GRAPH_PARENT_MISSING:
+            if parent2_pos < GRAPH_PARENT_NONE:
                 if parent2_pos >= len(oids):
                     raise ValueError(f"Invalid parent2 position: {parent2_pos}")
-                parents.append(oids[parent2_pos])
+                if parents is not None:
+                    parents.append(oids[parent2_pos])
+            elif parent2_pos == GRAPH_PARENT_MISSING:
+                parents = None
             elif parent2_pos >= GRAPH_EXTRA_EDGES_NEEDED:
                 # Handle extra edges (3+ parents)
                 edge_index = parent2_pos & ~GRAPH_EXTRA_EDGES_NEEDED
-                parents.extend(self._parse_extra_edges(edge_index, oids))
+                extra = self._parse_extra_edges(edge_index, oids)
+                if extra is None or parents is None:
+                    parents = None
+                else:
+                    parents.extend(extra)
 
             entry = CommitGraphEntry(
                 commit_id=sha_to_hex(oids[i]),
                 tree_id=sha_to_hex(RawObjectID(tree_id)),
-                parents=[sha_to_hex(p) for p in parents],
+                parents=(
+                    None if parents is None else [sha_to_hex(p) for p in parents]
+                ),
                 generation=generation,
                 commit_time=commit_time,
             )
@@ -316,7 +332,7 @@ class CommitGraph:
 
     def _parse_extra_edges(
         self, index: int, oids: Sequence[RawObjectID]
-    ) -> list[RawObjectID]:
+    ) -> list[RawObjectID] | None:
         """Parse extra parent edges for commits with 3+ parents.
 
         Args:
@@ -324,6 +340,9 @@ class CommitGraph:
             data chunk. The list holds 4-byte values, so this is scaled by 4
             to reach the corresponding byte.
           oids: Commit ids, indexed by commit graph position.
+
+        Returns: the second and further parents, or None if one of them is
+          marked as missing from the file.
         """
         if CHUNK_EXTRA_EDGE_LIST not in self.chunks:
             return []
@@ -336,6 +355,8 @@ class CommitGraph:
             parent_pos = struct.unpack(">L", edge_data[offset : offset + 4])[0]
             offset += 4
 
+            if parent_pos & ~GRAPH_LAST_EDGE == GRAPH_PARENT_MISSING:
+                return None
             if parent_pos & GRAPH_LAST_EDGE:
                 parent_pos &= ~GRAPH_LAST_EDGE
                 if parent_pos < len(oids):
@@ -367,7 +388,12 @@ class CommitGraph:
         return entry.generation if entry else None
 
     def get_parents(self, oid: ObjectID) -> list[ObjectID] | None:
-        """Get parent commit IDs for a commit."""
+        """Get parent commit IDs for a commit.
+
+        Returns: the parents, or None if the commit is not in the graph or
+          the graph does not know all of its parents; callers should then
+          read the commit object.
+        """
         entry = self.get_entry_by_oid(oid)
         return entry.parents if entry else None
 
@@ -391,40 +417,36 @@ class CommitGraph:
         # Positions of the second and further parents of octopus merges
         extra_edges: list[int] = []
 
-        def parent_pos(entry: CommitGraphEntry, parent: ObjectID) -> int:
-            # The format has no way to say "this parent is not in the file":
-            # a placeholder would be read back as a commit with fewer parents.
-            try:
-                return oid_to_index[parent]
-            except KeyError:
-                raise ValueError(
-                    f"parent {parent!r} of commit {entry.commit_id!r} "
-                    "is not in the commit graph"
-                ) from None
+        def parent_pos(parent: ObjectID) -> int:
+            # A parent that is not written is marked as such, so that readers
+            # do not take the commit for one with fewer parents.
+            return oid_to_index.get(parent, GRAPH_PARENT_MISSING)
 
         for entry in sorted_entries:
             # Tree OID (20 bytes)
             commit_data += hex_to_sha(entry.tree_id)
 
             # Parent positions (2 x 4 bytes)
-            if len(entry.parents) == 0:
+            if entry.parents is None:
+                # Parents unknown (entry read from a file that lacked them)
                 parent1_pos = GRAPH_PARENT_MISSING
-                parent2_pos = GRAPH_PARENT_MISSING
+                parent2_pos = GRAPH_PARENT_NONE
+            elif len(entry.parents) == 0:
+                parent1_pos = GRAPH_PARENT_NONE
+                parent2_pos = GRAPH_PARENT_NONE
             elif len(entry.parents) == 1:
-                parent1_pos = parent_pos(entry, entry.parents[0])
-                parent2_pos = GRAPH_PARENT_MISSING
+                parent1_pos = parent_pos(entry.parents[0])
+                parent2_pos = GRAPH_PARENT_NONE
             elif len(entry.parents) == 2:
-                parent1_pos = parent_pos(entry, entry.parents[0])
-                parent2_pos = parent_pos(entry, entry.parents[1])
+                parent1_pos = parent_pos(entry.parents[0])
+                parent2_pos = parent_pos(entry.parents[1])
             else:
                 # More than 2 parents: the second slot points into the extra
                 # edge list, which holds every parent but the first; the
                 # last one is flagged.
-                parent1_pos = parent_pos(entry, entry.parents[0])
+                parent1_pos = parent_pos(entry.parents[0])
                 parent2_pos = GRAPH_EXTRA_EDGES_NEEDED | len(extra_edges)
-                extra_edges.extend(
-                    parent_pos(entry, parent) for parent in entry.parents[1:]
-                )
+                extra_edges.extend(parent_pos(parent) for parent in entry.parents[1:])
                 extra_edges[-1] |= GRAPH_LAST_EDGE
 
             commit_data += struct.pack(">LL", parent1_pos, parent2_pos)
@@ -563,21 +585,6 @@ def generate_commit_graph(
         except KeyError:
             # Commit not found, skip
             continue
-
-    # A commit can only be described together with all of its parents: the
-    # file format cannot mark a parent as unknown, and a reader would take a
-    # commit with a left-out parent for one with fewer parents. Leave such
-    # commits (and, in turn, their descendants) out; lookups for them fall
-    # back to the commit object.
-    children: dict[ObjectID, list[ObjectID]] = {}
-    for commit_id, commit_obj in commit_map.items():
-        for parent_id in commit_obj.parents:
-            children.setdefault(parent_id, []).append(commit_id)
-    left_out = [parent_id for parent_id in children if parent_id not in commit_map]
-    while left_out:
-        for commit_id in children.pop(left_out.pop(), ()):
-            if commit_map.pop(commit_id, None) is not None:
-                left_out.append(commit_id)
 
     # Calculate generation numbers using topological sort
     generation_map: dict[bytes, int] = {}
